@@ -313,6 +313,13 @@ Proof.
   assert (25 <= lenN (toks_bytes (inscription_toks h20 ct data enriched))) as Hlen.
   { rewrite toks_prefix, lenN_app. unfold lenN at 1. rewrite HL. lia. }
   replace (lenN (toks_bytes (inscription_toks h20 ct data enriched)) <? 25) with false by lia.
+  assert (Hfirst : firstn 25 (toks_bytes (inscription_toks h20 ct data enriched)) = p2pkh_script h20).
+  { rewrite toks_prefix. rewrite firstn_app, HL, Nat.sub_diag, firstn_O, app_nil_r. apply firstn_all2. lia. }
+  assert (Hp2 : Fees.is_p2pkh (p2pkh_script h20) = true).
+  { unfold Fees.is_p2pkh. rewrite HL. unfold p2pkh_script.
+    destruct h20 as [|b0 [|b1 [|b2 [|b3 [|b4 [|b5 [|b6 [|b7 [|b8 [|b9 [|b10 [|b11 [|b12 [|b13 [|b14 [|b15 [|b16 [|b17 [|b18 [|b19 [|b20 r]]]]]]]]]]]]]]]]]]]]];
+      try (cbn in H20; discriminate). reflexivity. }
+  rewrite Hfirst, Hp2.
   cbn [orb negb].
   rewrite (is_op_zero_part_toks _ 11 (push_tok data) Hok) by reflexivity.
   rewrite (is_op_zero_part_toks _ 9 (push_tok ct) Hok) by reflexivity.
@@ -349,6 +356,7 @@ Proof.
   unfold parse_inscription. pose proof (decode_parts_total s) as [Hp Hf].
   destruct (decode_parts s) as [p|p| |] eqn:D; try congruence; try discriminate.
   destruct (lenN s <? 25) eqn:L; cbn [orb]; [discriminate|].
+  destruct (Fees.is_p2pkh (firstn 25 s)); cbn [negb orb]; [|discriminate].
   destruct (Fees.is_p2pkh_inscription_parts p) eqn:Hh; cbn [negb]; [|discriminate].
   assert (13 <= length p)%nat as H13.
   { unfold Fees.is_p2pkh_inscription_parts in Hh. destruct (Nat.ltb_spec (length p) 13); [discriminate|assumption]. }
@@ -360,3 +368,20 @@ Proof.
   rewrite slice_ok by (rewrite ?lenNg_lenN; lia). discriminate.
 Qed.
 
+
+(** what ParseInscription returns as the locking-script prefix is the first 25 bytes of the script, and those
+    are a P2PKH script (so a prefix that merely decodes to the same parts — the hash pushed through OP_PUSHDATA1,
+    the opcode bytes pushed as data — is not reported with one of its bytes missing) *)
+Theorem parse_inscription_prefix s ct d pre :
+  parse_inscription s = PIOk ct d pre -> pre = firstn 25 s /\ Fees.is_p2pkh pre = true.
+Proof.
+  unfold parse_inscription. destruct (decode_parts s) as [p|p| |]; try discriminate.
+  destruct (lenN s <? 25) eqn:L; cbn [orb]; [discriminate|].
+  destruct (Fees.is_p2pkh (firstn 25 s)) eqn:Hp; cbn [negb orb]; [|discriminate].
+  destruct (Fees.is_p2pkh_inscription_parts p); cbn [negb]; [|discriminate].
+  destruct (idx p 11); [|discriminate]. destruct (idx p 9); [|discriminate].
+  destruct (is_op_zero_part s p 11); [|discriminate]. destruct (is_op_zero_part s p 9); [|discriminate].
+  rewrite slice_ok by (rewrite ?lenNg_lenN; lia).
+  intros [= _ _ <-]. change (N.to_nat 0) with 0%nat. cbn [skipn]. change (N.to_nat (25 - 0)) with 25%nat.
+  split; [reflexivity|exact Hp].
+Qed.
